@@ -53,6 +53,52 @@ void h_signed_verify(void)
 	}
 	V_REACH();
 }
+#elif defined(SIGNSIDE)
+/* ---- cms_signed_data_sign_to_der: what is hashed is exactly the ContentInfo that is emitted; SignerInfo i is made with signer i's key and certificate ---- */
+#define DL 5
+#define NSG 2
+static uint8_t h_buf[64]; static size_t h_len; static const SM3_CTX *h_ctx; static int h_over;
+void sm3_init(SM3_CTX *c) { h_ctx = c; h_len = 0; }
+void sm3_update(SM3_CTX *c, const uint8_t *d, size_t n) { if (c != h_ctx || h_len + n > sizeof(h_buf)) { h_over = 1; return; } for (size_t i = 0; i < n; i++) h_buf[h_len + i] = d[i]; h_len += n; }
+int x509_cert_get_issuer_and_serial_number(const uint8_t *a, size_t alen, const uint8_t **issuer, size_t *issuer_len, const uint8_t **serial, size_t *serial_len)
+{ *issuer = a; *issuer_len = 1; *serial = a + 1; *serial_len = 1; return 1; }
+static const SM2_KEY *a_key[NSG + 1]; static const uint8_t *a_issuer[NSG + 1]; static const SM3_CTX *a_ctx[NSG + 1]; static size_t a_hlen[NSG + 1]; static int a_n;
+int cms_signer_infos_add_signer_info(uint8_t *d, size_t *dlen, size_t maxlen, const SM3_CTX *sm3_ctx, const SM2_KEY *sign_key,
+	const uint8_t *issuer, size_t issuer_len, const uint8_t *serial_number, size_t serial_number_len,
+	const uint8_t *authed_attrs, size_t authed_attrs_len, const uint8_t *unauthed_attrs, size_t unauthed_attrs_len)
+{
+	if (a_n < NSG + 1) { a_key[a_n] = sign_key; a_issuer[a_n] = issuer; a_ctx[a_n] = sm3_ctx; a_hlen[a_n] = h_len; }
+	a_n++; d[*dlen] = 0x30; (*dlen)++;
+	return 1;
+}
+int cms_implicit_signers_certs_to_der(int index, const CMS_CERTS_AND_KEY *signers, size_t signers_cnt, uint8_t **out, size_t *outlen) { return 1; }
+int cms_digest_algors_to_der(const int *digest_algors, size_t digest_algors_cnt, uint8_t **out, size_t *outlen) { return 1; }
+static void sign_side(int ct)
+{
+	SM2_KEY k[NSG]; uint8_t c[NSG][2]; CMS_CERTS_AND_KEY sg[NSG]; uint8_t data[DL], out[128], exp[64]; uint8_t *p = out, *q = exp; size_t outlen = 0, explen = 0;
+	for (int i = 0; i < DL; i++) data[i] = nondet_u8();
+	for (int i = 0; i < NSG; i++) { sg[i].certs = c[i]; sg[i].certs_len = 2; sg[i].sign_key = &k[i]; }
+	int r = cms_signed_data_sign_to_der(sg, NSG, ct, data, DL, NULL, 0, &p, &outlen);
+	CHECK(r == 1, "signing succeeds");
+	CHECK(cms_content_info_to_der(ct, data, DL, &q, &explen) == 1, "ContentInfo encodes");
+	CHECK(!h_over && h_len == explen, "the digest covers exactly as many bytes as the emitted ContentInfo has");
+	for (size_t i = 0; i < sizeof(exp); i++) if (i < explen) CHECK(h_buf[i] == exp[i], "the digest input is the DER of the emitted ContentInfo (header and content)");
+	CHECK(a_n == NSG, "one SignerInfo per signer");
+	for (int i = 0; i < NSG; i++) {
+		CHECK(a_key[i] == &k[i], "SignerInfo i is signed with signer i's key");
+		CHECK(a_issuer[i] == c[i], "SignerInfo i names signer i's certificate");
+		CHECK(a_ctx[i] == h_ctx && a_hlen[i] == explen, "every SignerInfo signs the digest of the whole ContentInfo");
+	}
+}
+void h_sign_side(void)
+{
+	int ct = nondet_int();
+	static const int types[] = { OID_cms_data, OID_cms_signed_data, OID_cms_enveloped_data, OID_cms_signed_and_enveloped_data, OID_cms_encrypted_data, OID_cms_key_agreement_info };
+	int hit = 0;
+	for (int i = 0; i < 6; i++) if (ct == types[i]) { sign_side(types[i]); hit = 1; break; }
+	ASSUME(hit);
+	V_REACH();
+}
 #elif defined(RCPT)
 /* ---- cms_recipient_info_decrypt_from_der: decrypts only the RecipientInfo whose issuer AND serial equal the offered certificate's ---- */
 static uint8_t r_issuer[3], r_serial[3]; static size_t r_il, r_sl; static int r_alg; static int d_calls, d_verdict;
